@@ -741,3 +741,302 @@ fn revoked_serials(crl: &Crl) -> Vec<String> {
     }
     out
 }
+
+// ====================================================================== abstract export
+//
+// What the repository *contains*, independent of the walk's verdicts, in the vocabulary of the
+// Lean relying-party model (`lean/KrillModel/Sys/Rp.lean`): CA certificates, publication points
+// (directory -> files name/hash), and a catalog hash -> decoded object. The Lean driver `rptree`
+// (`lean/KrillModel/Drivers/RpTree.lean`) builds `Catalog` / `Repo` from it, runs `TreeValid`,
+// `treeVrps`, `treeAspas`, `treeRouterKeys` and compares with this module's walk.
+//
+// * Decoding is rpki-rs (strict); bytes that do not decode (by file extension: .cer .mft .crl .roa
+//   .asa) are absent from the catalog, as is every file with another extension.
+// * Values are raw: times are unix seconds as they stand in the objects; the driver documents how
+//   it turns them into the model's half-open windows.
+// * Cryptography is symbolic in the model ("issuer key of the object = key of the certificate
+//   being validated"), so signature validity is part of the abstraction: an object whose
+//   signature does not verify under the key its AKI names is exported with a *fresh* issuer key
+//   (no certificate has it, the model rejects the object for the same reason). What can be checked
+//   through rpki-rs's public API is checked here, independently of the walk (certificate / EE
+//   certificate / CRL signature under the public key of a CA certificate with SKI = the AKI); the
+//   CMS-level checks of signed objects are private to rpki-rs and are taken from the walk
+//   (`bad-signature` problems, by URI).
+// * Conditions the model cannot represent are named in `outside` (the driver then compares in one
+//   direction only): inherited resources on a CA certificate, router certificates with other than
+//   exactly one ASN.
+// * Keys, hashes, serials, resource sets go through the caller's `AbsTokens` (the system harness
+//   uses its `Canon`: `K<n>`, `H<n>`, `S<n>`, `{"atoms":[..]}` / `{"all":true}` / `+"rest"`).
+
+pub trait AbsTokens {
+    fn key(&mut self, hex: &str) -> serde_json::Value;
+    fn hash(&mut self, hex: &str) -> serde_json::Value;
+    fn serial(&mut self, dec: &str) -> serde_json::Value;
+    /// Resource set given as rpki-rs prints it (asn, ipv4, ipv6).
+    fn resources(&mut self, asn: &str, v4: &str, v6: &str) -> serde_json::Value;
+    /// URIs / file names (key identifiers inside them may be shortened).
+    fn text(&mut self, s: &str) -> String;
+}
+
+fn hex(b: &[u8]) -> String {
+    b.iter().map(|x| format!("{x:02x}")).collect()
+}
+
+fn dir_and_name(uri: &str) -> (&str, &str) {
+    match uri.rfind('/') {
+        Some(i) => (&uri[..=i], &uri[i + 1..]),
+        None => ("", uri),
+    }
+}
+
+enum Decoded {
+    Cert(Cert),
+    Mft(Manifest),
+    Crl(Crl),
+    Roa(Roa),
+    Aspa(Aspa),
+}
+
+struct Exporter<'a, 't> {
+    input: &'a RpInput<'a>,
+    tok: &'t mut dyn AbsTokens,
+    /// CA certificates (TA included) by SKI, for the independent signature checks.
+    by_ski: BTreeMap<String, Vec<Cert>>,
+    bad_sig: BTreeSet<&'a str>,
+    fresh: u32,
+    outside: BTreeSet<&'static str>,
+}
+
+impl<'a, 't> Exporter<'a, 't> {
+    fn fresh_key(&mut self) -> serde_json::Value {
+        self.fresh += 1;
+        serde_json::Value::String(format!("X{}", self.fresh))
+    }
+
+    /// The issuer key of something carrying `aki`, signed so that `check(issuer)` verifies.
+    fn issuer_key(
+        &mut self, uri: &str, aki: Option<KeyIdentifier>, check: &dyn Fn(&Cert) -> bool,
+    ) -> serde_json::Value {
+        let Some(aki) = aki else { return self.fresh_key() };
+        let aki = aki.to_string();
+        if self.bad_sig.contains(uri) {
+            return self.fresh_key();
+        }
+        if let Some(issuers) = self.by_ski.get(&aki) {
+            if !issuers.iter().any(|c| catch_unwind(AssertUnwindSafe(|| check(c))).unwrap_or(false)) {
+                return self.fresh_key();
+            }
+        }
+        self.tok.key(&aki)
+    }
+
+    fn resources(&mut self, cert: &Cert) -> serde_json::Value {
+        match (cert.as_resources().to_blocks(), cert.v4_resources().to_blocks(), cert.v6_resources().to_blocks()) {
+            (Ok(a), Ok(v4), Ok(v6)) => {
+                self.tok.resources(&a.to_string(), &v4.as_v4().to_string(), &v6.as_v6().to_string())
+            }
+            _ => {
+                self.outside.insert("inherited-resources");
+                serde_json::json!({"atoms": [], "rest": "inherit"})
+            }
+        }
+    }
+
+    /// `{issuer_key, subject_key, resources, not_after, serial, mft_name, crl_name, pp}`.
+    /// `crl_name` is the single `.crl` entry of the manifest found under `mft_name` in `pp`
+    /// (`null` if there is no such manifest or not exactly one `.crl` entry: the model then finds
+    /// no CRL, as the walk reports `crl-missing` / `multiple-crls`).
+    fn cert_json(&mut self, uri: &str, cert: &Cert, is_ta: bool, decoded: &BTreeMap<&'a str, Decoded>) -> serde_json::Value {
+        let ski = cert.subject_key_identifier().to_string();
+        let issuer = if is_ta {
+            self.tok.key(&ski)
+        } else {
+            let c2 = cert.clone();
+            self.issuer_key(uri, cert.authority_key_identifier(), &move |iss| c2.verify_signature(iss, STRICT).is_ok())
+        };
+        let (pp, mft_name) = match (cert.ca_repository(), cert.rpki_manifest()) {
+            (Some(r), Some(m)) => {
+                let mut r = r.to_string();
+                if !r.ends_with('/') {
+                    r.push('/');
+                }
+                let m = m.to_string();
+                let name = match m.strip_prefix(r.as_str()) {
+                    Some(rest) if !rest.is_empty() && !rest.contains('/') => Some(rest.to_string()),
+                    _ => None,
+                };
+                (Some(r), name)
+            }
+            _ => (None, None),
+        };
+        let crl_name = match (&pp, &mft_name) {
+            (Some(pp), Some(n)) => match decoded.get(format!("{pp}{n}").as_str()) {
+                Some(Decoded::Mft(m)) => {
+                    let crls: Vec<String> = m.content().iter()
+                        .map(|fh| String::from_utf8_lossy(fh.file().as_ref()).to_string())
+                        .filter(|n| ext(n) == "crl").collect();
+                    if crls.len() == 1 { Some(crls[0].clone()) } else { None }
+                }
+                _ => None,
+            },
+            _ => None,
+        };
+        let resources = self.resources(cert);
+        let serial = self.tok.serial(&cert.serial_number().to_string());
+        let subject_key = self.tok.key(&ski);
+        serde_json::json!({
+            "issuer_key": issuer, "subject_key": subject_key,
+            "resources": resources,
+            "not_before": ts(cert.validity().not_before()), "not_after": ts(cert.validity().not_after()),
+            "serial": serial,
+            "mft_name": mft_name.map(|n| self.tok.text(&n)), "crl_name": crl_name.map(|n| self.tok.text(&n)),
+            "pp": pp.map(|p| self.tok.text(&p)),
+        })
+    }
+
+    /// issuer / serial / validity of the EE certificate of a signed object.
+    fn ee_json(&mut self, uri: &str, ee: &Cert) -> serde_json::Map<String, serde_json::Value> {
+        let e2 = ee.clone();
+        let issuer = self.issuer_key(uri, ee.authority_key_identifier(), &move |iss| e2.verify_signature(iss, STRICT).is_ok());
+        let mut m = serde_json::Map::new();
+        m.insert("issuer_key".into(), issuer);
+        m.insert("serial".into(), self.tok.serial(&ee.serial_number().to_string()));
+        m.insert("not_before".into(), ts(ee.validity().not_before()).into());
+        m.insert("not_after".into(), ts(ee.validity().not_after()).into());
+        m
+    }
+}
+
+/// The `abstract` value of the `rp` observation. `report` is the walk's report on the same input
+/// (only its `bad-signature` problems are used, see above).
+pub fn abstract_export(input: &RpInput, report: &RpReport, tok: &mut dyn AbsTokens) -> serde_json::Value {
+    use serde_json::{json, Value};
+    let res = catch_unwind(AssertUnwindSafe(|| {
+        // --- decode everything, by extension
+        let mut decoded: BTreeMap<&str, Decoded> = BTreeMap::new();
+        for (uri, bytes) in input.objects {
+            let (_, name) = dir_and_name(uri);
+            let d = catch_unwind(AssertUnwindSafe(|| match ext(name) {
+                "cer" => Cert::decode(bytes.as_slice()).ok().map(Decoded::Cert),
+                "mft" => Manifest::decode(bytes.as_slice(), STRICT).ok().map(Decoded::Mft),
+                "crl" => Crl::decode(bytes.as_slice()).ok().map(Decoded::Crl),
+                "roa" => Roa::decode(bytes.as_slice(), STRICT).ok().map(Decoded::Roa),
+                "asa" => Aspa::decode(bytes.as_slice(), STRICT).ok().map(Decoded::Aspa),
+                _ => None,
+            }));
+            if let Ok(Some(d)) = d {
+                decoded.insert(uri.as_str(), d);
+            }
+        }
+        let ta = Cert::decode(input.ta_cert_der).ok();
+        let mut by_ski: BTreeMap<String, Vec<Cert>> = BTreeMap::new();
+        if let Some(ta) = &ta {
+            by_ski.entry(ta.subject_key_identifier().to_string()).or_default().push(ta.clone());
+        }
+        for d in decoded.values() {
+            if let Decoded::Cert(c) = d {
+                if c.is_ca() {
+                    by_ski.entry(c.subject_key_identifier().to_string()).or_default().push(c.clone());
+                }
+            }
+        }
+        let bad_sig: BTreeSet<&str> = report.problems.iter().filter(|p| p.kind == "bad-signature").map(|p| p.uri.as_str()).collect();
+        let mut ex = Exporter { input, tok, by_ski, bad_sig, fresh: 0, outside: BTreeSet::new() };
+
+        // --- publication points and catalog
+        let mut dirs: BTreeMap<String, Vec<Value>> = BTreeMap::new();
+        let mut cat: Vec<Value> = Vec::new();
+        let mut seen_hash: BTreeSet<String> = BTreeSet::new();
+        for (uri, bytes) in ex.input.objects {
+            let (dir, name) = dir_and_name(uri);
+            let h = rpki::rrdp::Hash::from_data(bytes).to_string();
+            let hv = ex.tok.hash(&h);
+            let dir_t = ex.tok.text(dir);
+            let name_t = ex.tok.text(name);
+            dirs.entry(dir_t).or_default().push(json!([name_t, hv.clone()]));
+            if !seen_hash.insert(h) {
+                continue;
+            }
+            let obj: Option<Value> = match decoded.get(uri.as_str()) {
+                None => None,
+                Some(Decoded::Cert(c)) => {
+                    if c.is_ca() {
+                        let mut v = ex.cert_json(uri, c, false, &decoded);
+                        v.as_object_mut().unwrap().insert("t".into(), "cert".into());
+                        Some(v)
+                    } else {
+                        let mut m = ex.ee_json(uri, c);
+                        let asns: Vec<u32> = c.as_resources().to_blocks().map(|b| b.iter_asns().take(3).map(|a| a.into_u32()).collect()).unwrap_or_default();
+                        if asns.len() != 1 {
+                            ex.outside.insert("router-cert-asn-count");
+                        }
+                        m.insert("t".into(), "router".into());
+                        m.insert("asn".into(), asns.first().copied().unwrap_or(0).into());
+                        m.insert("router_key".into(), ex.tok.key(&c.subject_key_identifier().to_string()));
+                        Some(Value::Object(m))
+                    }
+                }
+                Some(Decoded::Mft(mft)) => {
+                    let mut m = ex.ee_json(uri, mft.cert());
+                    let c = mft.content();
+                    m.insert("t".into(), "mft".into());
+                    m.insert("number".into(), c.manifest_number().to_string().into());
+                    m.insert("this_update".into(), ts(c.this_update()).into());
+                    m.insert("next_update".into(), ts(c.next_update()).into());
+                    let entries: Vec<Value> = c.iter().map(|fh| {
+                        let n = String::from_utf8_lossy(fh.file().as_ref()).to_string();
+                        json!([ex.tok.text(&n), ex.tok.hash(&hex(fh.hash().as_ref()))])
+                    }).collect();
+                    m.insert("entries".into(), entries.into());
+                    Some(Value::Object(m))
+                }
+                Some(Decoded::Crl(crl)) => {
+                    let c2 = crl.clone();
+                    let issuer = ex.issuer_key(uri, Some(*crl.authority_key_identifier()),
+                        &move |iss| c2.verify_signature(iss.subject_public_key_info()).is_ok());
+                    let revoked: Vec<Value> = revoked_serials(crl).iter().map(|s| ex.tok.serial(s)).collect();
+                    Some(json!({
+                        "t": "crl", "issuer_key": issuer, "number": crl.crl_number().to_string(),
+                        "this_update": ts(crl.this_update()), "next_update": ts(crl.next_update()),
+                        "revoked": revoked,
+                    }))
+                }
+                Some(Decoded::Roa(roa)) => {
+                    let mut m = ex.ee_json(uri, roa.cert());
+                    let c = roa.content();
+                    m.insert("t".into(), "roa".into());
+                    let ps: Vec<Value> = c.iter().map(|a| json!([c.as_id().into_u32(), format!("{}/{}", a.address(), a.address_length()), a.max_length()])).collect();
+                    m.insert("payloads".into(), ps.into());
+                    Some(Value::Object(m))
+                }
+                Some(Decoded::Aspa(aspa)) => {
+                    let mut m = ex.ee_json(uri, aspa.cert());
+                    let c = aspa.content();
+                    let mut providers: Vec<u32> = c.provider_as_set().iter().map(|a| a.into_u32()).collect();
+                    providers.sort();
+                    providers.dedup();
+                    m.insert("t".into(), "aspa".into());
+                    m.insert("customer".into(), c.customer_as().into_u32().into());
+                    m.insert("providers".into(), providers.into());
+                    Some(Value::Object(m))
+                }
+            };
+            if let Some(o) = obj {
+                cat.push(json!([hv, o]));
+            }
+        }
+        let ta_json = match &ta {
+            Some(c) => ex.cert_json("", c, true, &decoded),
+            None => Value::Null,
+        };
+        let dirs: Vec<Value> = dirs.into_iter().map(|(d, fs)| json!([d, fs])).collect();
+        json!({
+            "now": ts(ex.input.now), "ta": ta_json, "dirs": dirs, "cat": cat,
+            "outside": ex.outside.iter().collect::<Vec<_>>(),
+        })
+    }));
+    match res {
+        Ok(v) => v,
+        Err(p) => serde_json::json!({"error": panic_msg(p)}),
+    }
+}
